@@ -32,7 +32,19 @@ type AtExit struct {
 	Src    string
 }
 
+// LoopGhost is loop-carried ghost state: havocked with the loop, constrained by
+// the invariants, updated definitionally at every back edge.
+type LoopGhost struct {
+	Name string
+	Type string
+	Init string // expression at loop entry ("" = unconstrained)
+	Var  string // update: name[var] := Upd (ghost arrays) ; Var == "" : name := Upd
+	Upd  string
+	Src  string
+}
+
 type LoopSpec struct {
+	Ghosts     []*LoopGhost
 	Lets       []GhostOut
 	Invariants []Clause
 	Decreases  []Clause
@@ -292,6 +304,32 @@ func (sp *Spec) loadFile(path, prefix string) error {
 			case "modifies":
 				ls.HasMod = true
 				ls.Modifies = append(ls.Modifies, parseList(r3)...)
+			case "ghost":
+				// loop N ghost name type [:= init]
+				name, r4 := splitWord(r3)
+				typ, r5 := splitWord(r4)
+				r5 = strings.TrimSpace(r5)
+				ls.Ghosts = append(ls.Ghosts, &LoopGhost{Name: name, Type: typ, Init: strings.TrimSpace(strings.TrimPrefix(r5, ":=")), Src: src})
+			case "update":
+				// loop N update name [var] := expr
+				lhs, rhs, ok := strings.Cut(r3, ":=")
+				if !ok {
+					return fmt.Errorf("%s: bad loop update", src)
+				}
+				f := strings.Fields(lhs)
+				var lg *LoopGhost
+				for _, g := range ls.Ghosts {
+					if len(f) > 0 && g.Name == f[0] {
+						lg = g
+					}
+				}
+				if lg == nil {
+					return fmt.Errorf("%s: update of undeclared loop ghost", src)
+				}
+				if len(f) > 1 {
+					lg.Var = f[1]
+				}
+				lg.Upd = strings.TrimSpace(rhs)
 			case "let":
 				name, r4 := splitWord(r3)
 				typ, r5 := splitWord(r4)
